@@ -970,7 +970,15 @@ static int sch_ecies(sess_t *s) {
 				/* exact-size heap copy of the ciphertext so that any over-read is visible */
 				uint8_t *ct = (uint8_t *)malloc(s->blen[1] ? s->blen[1] : 1);
 				memcpy(ct, s->buf[1], s->blen[1]);
-				int rc = cp_ecies_dec(s->buf[2], &s->blen[2], s->e[6], ct, s->blen[1], s->b[0]);
+				int rc;
+				if (s->opt[2] == 1) {
+					/* in place: the plaintext is written over the ciphertext (as the test suite itself calls it) */
+					memcpy(s->buf[2], ct, s->blen[1]);
+					tr_printf("NOTE %d decrypted-in-place\n", s->sid);
+					rc = cp_ecies_dec(s->buf[2], &s->blen[2], s->e[6], s->buf[2], s->blen[1], s->b[0]);
+				} else {
+					rc = cp_ecies_dec(s->buf[2], &s->blen[2], s->e[6], ct, s->blen[1], s->b[0]);
+				}
 				free(ct);
 				if (err_get_code() != RLC_OK) rc = RLC_ERR;
 				log_rc(s, "dec", rc);
